@@ -29,6 +29,12 @@ CHECKS = {
  "C04": dict(level="exploration", technique="exhaustive enumeration of planted-literal terms of the grammar x the complete language x style x verbosity lattice; oracle counts literal occurrences in speech",
              text="Every spine term to depth 2 with a distinct decimal literal at every operand slot in all 45 shipped speech configurations, depth 3 over a 12-construct core (quick: English; thorough: all languages) and depth 4 over a 6-construct core (thorough): every literal must occur in the speech at least as often as in the expression. Misses are classed by construct.slot and by whether the slot is already silent when the construct stands alone.",
              note="'At least' rather than 'exactly' (ClearSpeak repeats interval end points). Identifiers are not checked textually. Speech errors are left to C05/C15.", design="§4 C04"),
+ "C06": dict(level="exploration", technique="exhaustive enumeration of planted-literal terms x braille codes x code preferences; oracle looks for each literal's cell run",
+             text="The planted-literal corpus of C04 in the six codes the statement names and their code preferences: each literal's digit/decimal cell run (verbatim text for LaTeX/ASCIIMath) must occur contiguously at least as often as the literal occurs. The run is taken from the bare <mn> in the same configuration and validated against hard-coded digit tables.",
+             note="CMU/Vietnam lower-cell digits in simple numeric fractions are accepted. Swedish and ASCIIMath-fi are not named by the statement and are left to C07/C15.", design="§4 C06"),
+ "C05": dict(level="exploration", technique="exhaustive enumeration of terms, single deviations and complete per-language Unicode tables x the language/style/verbosity lattice; oracle scans every returned string for internal markers",
+             text="All spine terms to depth 2 and the trigger terms in all 45 speech configurations, single degenerate/invisible-operator deviations of depth-1 terms in every language, one token context for every key of every language's unicode.yaml and unicode-full.yaml (18.8k characters) and for characters in no table, plus capital-letter/override/impairment preference sets: speech and overview must be Ok, non-empty iff there is visible content, and free of private-use characters, [[ ]], raw invisible operators and markup; four navigation reads are scanned too.",
+             note="Input alphabets contain no private-use characters. Navigation reads are only scanned for markers.", design="§4 C05"),
 }
 PENDING = {}
 
